@@ -51,6 +51,11 @@ pub trait VF: Fixed + 'static {
     fn w_shift(a: Wrapping<Self>, kind: usize, amt: u128, right: bool, form: u8) -> Wrapping<Self>;
     /// unary: op 0 `-a` 1 `!a`; by reference when `byref`
     fn w_un(a: Wrapping<Self>, op: u8, byref: bool) -> Wrapping<Self>;
+    /// `Sum` / `Product` of F (by value or by reference iterator)
+    fn f_sum(items: &[Self], byref: bool) -> Self;
+    fn f_product(items: &[Self], byref: bool) -> Self;
+    /// F itself shifted by an integer of kind `kind` (operators `<<`, `>>` and their by-ref / assign forms)
+    fn f_shift(a: Self, kind: usize, amt: u128, right: bool, form: u8) -> Self;
     /// byte views: which 0 le, 1 be, 2 ne
     fn to_bytes(a: Self, which: u8) -> Vec<u8>;
     /// `bytes` must have exactly width/8 elements
@@ -230,6 +235,18 @@ macro_rules! impl_vf {
                 }
             }
             fn w_shift(a: Wrapping<Self>, kind: usize, amt: u128, right: bool, form: u8) -> Wrapping<Self> {
+                $crate::with_int!(kind, T => {
+                    let n = <T as IntRaw>::from_raw(amt);
+                    if right { wforms!(a, n, form, >>, >>=) } else { wforms!(a, n, form, <<, <<=) }
+                })
+            }
+            fn f_sum(items: &[Self], byref: bool) -> Self {
+                if byref { items.iter().sum() } else { items.iter().cloned().sum() }
+            }
+            fn f_product(items: &[Self], byref: bool) -> Self {
+                if byref { items.iter().product() } else { items.iter().cloned().product() }
+            }
+            fn f_shift(a: Self, kind: usize, amt: u128, right: bool, form: u8) -> Self {
                 $crate::with_int!(kind, T => {
                     let n = <T as IntRaw>::from_raw(amt);
                     if right { wforms!(a, n, form, >>, >>=) } else { wforms!(a, n, form, <<, <<=) }
